@@ -30,33 +30,12 @@ ASSUMPTIONS = [
 ]
 
 
-def c01_flags():
-    """the regions recorded findings of C01 spoil (constructor / densification defects) - probed, not assumed"""
-    present = set()
-
-    def chk(flag, f):
-        try:
-            if f():
-                present.add(flag)
-        except Exception:
-            present.add(flag)
-    chk("sparse_unsorted_cols", lambda: not np.array_equal(np.asarray(ops.Sparse(np.array([2., 3.]), np.array([1, 1]), np.array([2, 0]), (2, 3)).to_dense()),
-                                                           np.array([[0., 0., 0.], [3., 0., 2.]])))
-    chk("concat_assert_wrong_axis", lambda: not np.array_equal(ops.Concatenated(ops.Dense(np.ones((1, 2))), ops.Dense(np.ones((2, 2))), axis=0).to_dense(), np.ones((3, 2))))
-    chk("sliced_index_array_cpu", lambda: not np.array_equal(ops.Sliced(ops.Dense(np.arange(9.).reshape(3, 3)), (np.array([0, 2]), slice(None))).to_dense(),
-                                                             np.arange(9.).reshape(3, 3)[[0, 2]]))
-    chk("kronsum_inplace_dtype", lambda: not np.array_equal(np.asarray(ops.KronSum(ops.Dense(np.array([[1j]])), ops.Dense(np.array([[2 + 0j]]))) @ np.ones(1), dtype=complex),
-                                                            np.array([2 + 1j])))
-    return present
-
-
 def findings(c01):
     out = []
     # ---- registry_first_instance_decides: the witness of coq/C18_Registry.v (history_dependent_refuted), replayed in fresh interpreters
     D2 = ["Dense", 2]
-    scripts = [[["BDiag", [D2, D2], "list"]], [["BDiag", [D2, D2], "array"], ["BDiag", [D2, D2], "list"]]]
-    if "sliced_index_array_cpu" not in c01:
-        scripts += [[["Sliced", D2, "slice"]], [["Sliced", D2, "array"], ["Sliced", D2, "slice"]]]
+    scripts = [[["BDiag", [D2, D2], "list"]], [["BDiag", [D2, D2], "array"], ["BDiag", [D2, D2], "list"]],
+               [["Sliced", D2, "slice"]], [["Sliced", D2, "array"], ["Sliced", D2, "slice"]]]
     res = G.run_many(scripts, core.REPO)
     got, present = {}, False
     try:
@@ -68,14 +47,16 @@ def findings(c01):
         if len(res) > 2:
             a2 = [[x[0] for x in l] for l in res[2]["end"]][-1]
             b2 = [[x[0] for x in l] for l in res[3]["end"]][-1]
-            got["Sliced(A,(slice,slice)) leaves fresh / after an index-array Sliced"] = [a2, b2]
+            got["Sliced(A,(slice(0,1),slice(None))) leaves fresh / after Sliced(A,(np.array([0]),slice(None))) was attempted"] = [a2, b2]
+            got["the index-array constructor"] = [m for _, m in res[3]["errors"]] or "succeeded"
             present = present or a2 != b2
     except Exception as e:
         got["error"] = f"{type(e).__name__}: {e}; {[r['errors'] for r in res]}"
         present = True
     out.append(dict(flag="registry_first_instance_decides", present=bool(present),
                     what="which attributes are array parameters is decided per class by the first instance ever created: after "
-                         "BlockDiag(A,B,multiplicities=np.array([1,2])) the operator BlockDiag(A,B,multiplicities=[1,2]) flattens to 4 leaves, two of them Python ints",
+                         "BlockDiag(A,B,multiplicities=np.array([1,2])) the operator BlockDiag(A,B,multiplicities=[1,2]) flattens to 4 leaves, two of them Python ints; "
+                         "after Sliced(A,(index array, slice)) - even when that constructor raises - A[0:1,:] flattens to the array plus two slice objects",
                     witness="fresh interpreter: BlockDiag(Dense,Dense,multiplicities=np.array([1,2])); then BlockDiag(Dense,Dense,multiplicities=[1,2]).flatten()[0]",
                     expected="the two array parameters, as in a fresh interpreter", got=str(got)))
 
@@ -223,7 +204,7 @@ def special_entries():
 
 def run(ctx):
     logging.disable(logging.WARNING)
-    c01 = c01_flags()
+    c01 = G.c01_flags(core.REPO)
     fnd = findings(c01)
     present = {f["flag"] for f in fnd if f["present"]}
     rnd = ctx.rng
@@ -251,8 +232,8 @@ def run(ctx):
     if ctx.tier == "thorough":
         seqs += [list(p) for p in itertools.product(names, repeat=3)]
     else:
-        seqs += [[rnd.choice(names) for _ in range(3)] for _ in range(2500)]
-    seqs += [[rnd.choice(names) for _ in range(rnd.randint(4, 40))] for _ in range(ctx.budget(120, 600))]
+        seqs += [[rnd.choice(names) for _ in range(3)] for _ in range(ctx.budget(3000, 0))]
+    seqs += [[rnd.choice(names) for _ in range(rnd.randint(4, 40))] for _ in range(ctx.budget(150, 400))]
     err_hist, inapp, alias_obs, calls = collections.Counter(), 0, [], 0
     distinct = set()
     for i, sq in enumerate(seqs):
@@ -286,10 +267,10 @@ def run(ctx):
                  alias_true=sum(1 for _, _, o in uniq if o))
 
     # ---------------- registry: fresh interpreters, Coq machine replays the events ----------------
-    arrays_ok = "sliced_index_array_cpu" not in c01
+    arrays_ok = True     # a constructor that raises is modelled too (XPartial): its assignments reach the registry
     specs = [G.gen_spec(rnd, arrays_ok) for _ in range(ctx.budget(40, 200))]
     perms = G.permutation_specs(rnd, arrays_ok)
-    specs += perms[:ctx.budget(60, len(perms))]
+    specs += perms[:ctx.budget(60, 1200)]
     results = G.run_many(specs, core.REPO)
     failing, err = G.eval_in_coq(f"s{ctx.seed}", results)
     if err:
@@ -307,7 +288,7 @@ def run(ctx):
                              observed_end=rs["end"]))
         distinct.add(core.digest(sp))
     evaluations += n_obj
-    extra.update(registry_scripts=len(specs), registry_order_permutations=min(len(perms), ctx.budget(60, len(perms))), registry_objects=n_obj,
+    extra.update(registry_scripts=len(specs), registry_order_permutations=min(len(perms), ctx.budget(60, 1200)), registry_objects=n_obj,
                  registry_script_construction_errors=dict(script_errs))
     samples.append(dict(part="registry", script=specs[0]))
     logging.disable(logging.NOTSET)
